@@ -38,6 +38,16 @@ theorem chanPush_SE (cfg : Cfg) (w : World) (f c : Nat) (x : Val) (ch : Bool) : 
       · rw [if_neg hlen]; exact ⟨rfl, fun _ => rfl⟩
     | some r => simp only; (apply schedule_SE'; exact ⟨rfl, fun _ => rfl⟩)
 
+theorem superPush_SE (cfg : Cfg) (w : World) (c : Nat) (x : Val) : SE w (superPush cfg w c x) := by
+  unfold superPush
+  split
+  · exact SE.refl _
+  · cases popLive cfg.pushSkipsStale w (w.chans c).rp with
+    | mk o rest =>
+      cases o with
+      | none => exact ⟨rfl, fun _ => rfl⟩
+      | some r => simp only; (apply schedule_SE'; exact ⟨rfl, fun _ => rfl⟩)
+
 theorem chanPopWake_SE (cfg : Cfg) (w : World) (c : Nat) (items : List Val) : SE w (chanPopWake cfg w c items) := by
   unfold chanPopWake
   cases popLive cfg.popSkipsStale w (w.chans c).wp with
@@ -158,6 +168,7 @@ theorem step_SE (cfg : Cfg) (w : World) (op : Op) (hrun : op ≠ .run) : SE w (s
           · exact ⟨rfl, fun _ => rfl⟩
       · exact ⟨rfl, fun _ => rfl⟩
   | procFlag k x => exact ⟨rfl, fun _ => rfl⟩
+  | superPush c x => exact superPush_SE _ _ _ _
   | thrWait f k => exact ⟨rfl, fun _ => rfl⟩
   | thrDone k v e =>
     simp only [step, thrDone]
